@@ -167,10 +167,12 @@ func checkC17(c *Ctx) {
 }
 
 // c17Table: constant extraction of encoding/all.go's registration table.
-func c17Table(c *Ctx, p *Prog) {
+func c17Table(c *Ctx, p *Prog) { charsetTableRule(c, p, "C17-R8") }
+
+func charsetTableRule(c *Ctx, p *Prog, rule string) {
 	pk := p.pkg("encoding")
 	if pk == nil {
-		c.Undecided("C17-R8", "package encoding", "-", "not loaded")
+		c.Undecided(rule, "package encoding", "-", "not loaded")
 		return
 	}
 	normName := func(s string) string {
@@ -237,7 +239,7 @@ func c17Table(c *Ctx, p *Prog) {
 	}
 	// one call with non-constant arguments is the alias loop (and, in a table-driven variant, the table loop)
 	if len(pairs) < 20 {
-		c.Undecided("C17-R8", "registration table", "-", fmt.Sprintf("only %d (name, encoding) pairs could be extracted (%d calls with non-constant arguments)", len(pairs), nonConst))
+		c.Undecided(rule, "registration table", "-", fmt.Sprintf("only %d (name, encoding) pairs could be extracted (%d calls with non-constant arguments)", len(pairs), nonConst))
 		return
 	}
 	registered := map[string]bool{"USASCII": true, "UTF8": true, "ASCII": true}
@@ -253,7 +255,7 @@ func c17Table(c *Ctx, p *Prog) {
 				c.Exception(fmt.Sprintf("encoding table: %q ↔ %s: %s", pr.name, pr.obj, why))
 			}
 		}
-		c.Check(ok, "C17-R8", "charset:"+pr.name, p.pos(pr.pos), detail)
+		c.Check(ok, rule, "charset:"+pr.name, p.pos(pr.pos), detail)
 	}
 	for _, a := range sortedKeys(aliases) {
 		t := aliases[a]
@@ -261,7 +263,7 @@ func c17Table(c *Ctx, p *Prog) {
 		// an alias is its target with a prefix or separators dropped/added
 		core := func(s string) string { return strings.TrimPrefix(strings.TrimPrefix(s, "ISO"), "US") }
 		ok := registered[nt] && (core(na) == core(nt) || (na == "SJIS" && nt == "SHIFTJIS") || (strings.HasSuffix(na, "646") && nt == "USASCII"))
-		c.Check(ok, "C17-R8", "alias:"+a, p.pos(aliasPos), fmt.Sprintf("%q → %q (target registered: %v)", a, t, registered[nt]))
+		c.Check(ok, rule, "alias:"+a, p.pos(aliasPos), fmt.Sprintf("%q → %q (target registered: %v)", a, t, registered[nt]))
 	}
 }
 
